@@ -9,6 +9,8 @@ LEVEL = "other"
 
 
 def run(chk, tier):
+    import gflow
+    gflow.check_numeric_text(chk)
     import gtab
     # generator tables: primitive name -> C++ type / size / wrapper class (value_type and signedness of what getters return)
     gtab.check(chk, sbeppc_facts(), which=("keys", "sizes", "wrapper"))
